@@ -575,9 +575,12 @@ class RP:
             if self.at_op('{') and not ns and segs[-1][0].isupper():
                 self.i += 1
                 fields = []
+                base = None
                 while not self.at_op('}'):
                     if self.at_op('..'):
-                        self.fail('struct update syntax')
+                        self.i += 1
+                        base = self.expr()
+                        break
                     f = self.eat('id')
                     if self.maybe('op', ':'):
                         e = self.expr()
@@ -587,7 +590,7 @@ class RP:
                     if not self.maybe('op', ','):
                         break
                 self.eat('op', '}')
-                return ('struct', segs, fields)
+                return ('struct', segs, fields) if base is None else ('struct', segs, fields, base)
             return ('path', segs)
         self.fail('expression')
 
